@@ -328,6 +328,25 @@ def r4_seed_propagation(ctx, rep, R='C11.R4'):
               where=ctx.where(sp, sp.node))
 
 
+    # "for every integer seed": the parser defines option strings that look like negative numbers
+    # (-1); argparse then takes a separate word '-5' for an option, so an integer value must travel
+    # attached to its option ('--shuffle-seed=-5'), never as a word of its own
+    op = m.func('options.get_options').module
+    neg_like = [c.value for n in ast.walk(op.tree) if isinstance(n, ast.Call) and
+                isinstance(n.func, ast.Attribute) and n.func.attr == 'add_argument'
+                for c in n.args if isinstance(c, ast.Constant) and isinstance(c.value, str)
+                and len(c.value) > 1 and c.value[0] == '-' and c.value[1:].isdigit()]
+    if ext and neg_like:
+        a0 = ext[0].args[0]
+        words = a0.elts if isinstance(a0, (ast.List, ast.Tuple)) else [a0]
+        separate = any(isinstance(w, ast.Constant) and w.value == '--shuffle-seed' for w in words)
+        rep.check(not separate, R, 'the seed is forwarded attached to its option (--shuffle-seed=N): '
+                  'the parser has number-like options %s' % neg_like,
+                  'the seed is forwarded as a word of its own; the option parser defines %s, so a '
+                  'negative seed (\'-5\') is taken for an option and every child fails to start its '
+                  'run' % neg_like, key='seed:one-word', func=sp.qualname, where=ctx.where(sp, ext[0]))
+
+
 def r5_seed_reported(ctx, rep, R='C11.R5'):
     rep.rule(R, 'the seed is always reported: Shuffle.report passes a message containing self.seed '
              'to the formatter, unconditionally')
